@@ -31,8 +31,13 @@ IMPOSSIBLE_ALLOC = 1 << 46
 # ---------------------------------------------------------------- spec from the Rust generator --
 
 
+_built = {}
+
+
 def rust_dump(binname, tier, *args):
-    path = common.build_bin(binname)
+    if binname not in _built:       # one (no-op) cargo invocation per binary and run, not per dump
+        _built[binname] = common.build_bin(binname)
+    path = _built[binname]
     p = subprocess.run([path, "--tier", tier] + list(args), stdout=subprocess.PIPE, stderr=subprocess.PIPE, env=common.base_env())
     if p.returncode != 0:
         raise common.Machinery(f"{binname} {' '.join(args)} failed: {p.stderr[-300:]!r}")
@@ -47,9 +52,10 @@ def load_spec(tier):
     return d
 
 
-def load_nest(tier, which):
+def load_nest(tier, which, max_bytes=None):
     out = []
-    for l in rust_dump("c19", tier, "--dump-nest", which).decode().split("\n"):
+    extra = ["--max-bytes", str(max_bytes)] if max_bytes else []
+    for l in rust_dump("c19", tier, "--dump-nest", which, *extra).decode().split("\n"):
         if l:
             name, depth, hx = l.split("\t")
             out.append((name, int(depth), bytes.fromhex(hx)))
@@ -112,8 +118,9 @@ def spawn_limited(argv, stdin=b"", timeout=40, backtrace=False):
         with open(of, "wb") as o:
             p = subprocess.run(_wrap([batch.cli()] + list(argv)), input=stdin, stdout=o, stderr=subprocess.PIPE, env=e, timeout=timeout)
     except subprocess.TimeoutExpired:
-        if tmp:
-            os.remove(tmp)
+        for fn in (tmp, of):
+            if fn and os.path.exists(fn):
+                os.remove(fn)
         return ("T", b"", b"")
     with open(of, "rb") as o:
         out = o.read(1 << 20)
@@ -366,7 +373,10 @@ class Checker:
         rep.space(space, exhaustive, note)
         if not jobs:
             return
+        _t = time.time()
         res = run_limited(jobs, tag=re.sub(r"[^a-z0-9]", "", space))
+        if os.environ.get("VERIF_TIMING"):
+            print(f"[timing] {space}: {len(jobs)} jobs in {time.time() - _t:.1f}s", flush=True)
         # equivalence self-test against real processes (watchdog results cannot be compared)
         idx = [i for i, r in enumerate(res) if r[0] != "T" and len(jobs[i][1]) < 200000 and not any("\0" in a for a in jobs[i][0])]
         if idx and selftest_n:
@@ -386,6 +396,8 @@ class Checker:
         # a few at a time: process creation is the scarce resource here
         with ThreadPoolExecutor(6) as ex:
             spawned = list(ex.map(lambda i: spawn_limited(jobs[i][0], jobs[i][1]), cands))
+        if os.environ.get("VERIF_TIMING"):
+            print(f"[timing] {space}: selftest + {len(cands)} confirmations done at +{time.time() - _t:.1f}s", flush=True)
         for i, sp in zip(cands, spawned):
             job, r, meta = jobs[i], res[i], metas[i]
             self.confirmed += 1
@@ -521,7 +533,7 @@ def run(ctx):
     # nesting families (documents above 2 MB — the quadratic block-indentation shapes at depth 5000 — only in thorough)
     cap = 2_000_000 if quick else 30_000_000
     for name, which, argvs in (("json", "json", J_ARGV), ("yaml", "yaml", Y_ARGV)):
-        fam = [(b, {"label": f"{n}/{d}", "family": n}) for n, d, b in load_nest(tier, which) if len(b) <= cap]
+        fam = [(b, {"label": f"{n}/{d}", "family": n}) for n, d, b in load_nest(tier, which, cap)]
         jobs, metas = cross(fam, argvs)
         ck.run(f"cli/{name}/nesting", jobs, metas, f"every nesting shape x depth {S['depths']} ({len(fam)} documents up to {cap} bytes) x {len(argvs)} command lines", selftest_n=6)
 
